@@ -604,13 +604,29 @@ func runC20(c c20Case) (out lib.Outcome) {
 			}
 		}
 	}
+	// Freshness does not stop at one server object: a second worker built from
+	// the same configuration (same token key — a sibling behind the balancer, or
+	// this one after a restart) must not mint the ids this one minted.
+	if len(minted) > 0 {
+		twin, _ := buildC20(g)
+		for k := 0; k < len(minted)+2; k++ {
+			r := doRequest(twin, "GET", g.Prefix+"/health", nil, nil, false)
+			if id := r.Header.Get("X-Request-ID"); hex16.MatchString(id) {
+				if prev, dup := minted[id]; dup {
+					out.Violate("C20/request-id-reused-across-servers", "a second server with the same configuration minted %q for its request #%d, the id the first server minted for request #%d", id, k, prev)
+					break
+				}
+			}
+		}
+		out.Label("rid:twin-server")
+	}
 	return
 }
 
 var propC20 = lib.Prop[c20Case]{
 	ID: "C20",
 	Rule: "configuration record (prefix in {'', /vgi, /a/b}; CORS off/*/origin, max-age; request/response/externalised caps; upload-URL provider + max upload; external storage; proxy-proof advertisement; proxy auth headers; token introspection; sticky sessions with 0-2 echo headers; compression level; authenticator none/accepting/rejecting (RpcError ValueError/PermissionError, AuthFailure)/unavailable/erroring; OAuth resource metadata; pages on/off; serve-start hook absent/ok/failing 1-2 times; dispatch hook) x 1-5 requests (method in POST/GET/OPTIONS/DELETE/PUT/HEAD/PATCH, 30 path templates over the whole route table and near misses incl. //, .., trailing slash and '*', content type right/wrong/absent, body valid/none/oversize/garbage, bad or unknown Content-Encoding, X-Request-ID absent/empty/blank/1/128/129/long/multi-byte at the 128-byte bound/padded/with interior blanks, session accept and replay of a minted session token). " +
-		"Oracle: exactly one X-Request-ID = caller's SP/HTAB-trimmed id when 1..128 bytes, else fresh ^[0-9a-f]{16}$ distinct within the case; after the serve-start hook succeeded VGI-Supported-Encodings and VGI-Externalization-Enabled (value = storage configured) are present; under CORS every VGI-*/X-VGI-*/WWW-Authenticate/X-Request-ID header on the response, and every header the configuration can emit (own table from the header documentation), is listed in Access-Control-Expose-Headers. " +
+		"Oracle: exactly one X-Request-ID = caller's SP/HTAB-trimmed id when 1..128 bytes, else fresh ^[0-9a-f]{16}$ distinct within the case and from the ids a second server of the same configuration (same token key) mints; after the serve-start hook succeeded VGI-Supported-Encodings and VGI-Externalization-Enabled (value = storage configured) are present; under CORS every VGI-*/X-VGI-*/WWW-Authenticate/X-Request-ID header on the response, and every header the configuration can emit (own table from the header documentation), is listed in Access-Control-Expose-Headers. " +
 		"Non-trivial: non-2xx or OPTIONS response under CORS with >=2 optional features on.",
 	Gen:          genC20,
 	Run:          runC20,
